@@ -101,6 +101,12 @@ class SpecTimeout(Exception):
     pass
 
 
+def exact_float(x=0):
+    if isinstance(x, int) and not isinstance(x, bool):
+        return int(x)
+    return float(x)
+
+
 class U8(int):
     """stand-in for numpy.uint8 in the two BitMaskedArray definitions (wraps on shifts)"""
     def __new__(cls, v=0):
@@ -203,14 +209,14 @@ class Spec:
 
 
 class Kernel:
-    __slots__ = ('name', 'specs', 'definition', 'auto', 'pyfunc', 'pyerr', 'idx')
+    __slots__ = ('name', 'specs', 'definition', 'auto', 'pyfunc', 'pyfunc_exact', 'pyerr', 'idx')
 
     def __init__(self, d, idx):
         self.name, self.idx = d['name'], idx
         self.definition = d['definition'] or ''
         self.auto = bool(d['automatic-tests'])
         self.specs = [Spec(s, self, i) for i, s in enumerate(d['specializations'])]
-        self.pyfunc, self.pyerr = None, None
+        self.pyfunc, self.pyerr, self.pyfunc_exact = None, None, None
         n = len(self.specs[0].args)
         for s in self.specs:
             if [a.name for a in s.args] != [a.name for a in self.specs[0].args]:
@@ -228,6 +234,13 @@ class Kernel:
                 self.pyerr = 'definition takes %d arguments, specializations %d' % (f.__code__.co_argcount, n)
             else:
                 self.pyfunc = f
+                if 'float(' in self.definition:
+                    # the same definition with `float` read as an exact conversion (ints stay ints): used only to
+                    # recognise disagreements that are artefacts of the double-precision cast in the definition
+                    g2 = dict(g)
+                    g2['float'] = exact_float
+                    exec(compile(self.definition, '<%s>' % self.name, 'exec'), g2)
+                    self.pyfunc_exact = g2[self.name]
         except Exception as e:       # noqa: BLE001
             self.pyerr = 'definition does not compile: %r' % (e,)
 
@@ -517,7 +530,7 @@ def _alarm(signum, frame):
     raise SpecTimeout()
 
 
-def run_spec(call, open_out=False, timeout=5.0):
+def run_spec(call, open_out=False, timeout=5.0, exact=False):
     """exec the YAML definition. -> dict(status='ok'|'err'|'notexec'|'oob'|'timeout', msg, out, extent={name: n})"""
     sp = call.spec
     k = sp.kernel
@@ -541,7 +554,7 @@ def run_spec(call, open_out=False, timeout=5.0):
     old = signal.signal(signal.SIGALRM, _alarm)
     signal.setitimer(signal.ITIMER_REAL, timeout)
     try:
-        k.pyfunc(*pa)
+        (k.pyfunc_exact if exact else k.pyfunc)(*pa)
         st, msg = 'ok', ''
     except ValueError as e:
         st, msg = 'err', str(e)
